@@ -510,6 +510,9 @@ func engAgg(a []string) string {
 		aggSeq = 0
 		return "ok"
 	}
+	if a[0] == "key" {
+		return aggKeyOp(a[1:])
+	}
 	if aggProc == nil {
 		return "bad-op"
 	}
@@ -679,4 +682,93 @@ func engAgg(a []string) string {
 		return fmt.Sprintf("%d", aggProc.GetExpiryFromExpirePriorityQueue().Milliseconds())
 	}
 	return "bad-op"
+}
+
+// ipTextToken: the class of address values a FlowKey text stands for (Model/FlowKey.lean, IPText): nil, bad:<hex>,
+// 4:<4 bytes>, 6:<16 bytes>; a text that is none of these is shown as it is (text:<hex>) and agrees with no model value
+func ipTextToken(s string) string {
+	if s == "<nil>" {
+		return "nil"
+	}
+	if strings.HasPrefix(s, "?") {
+		return "bad:" + s[1:]
+	}
+	ip := net.ParseIP(s)
+	if ip == nil {
+		return "text:" + hexs([]byte(s))
+	}
+	if p4 := ip.To4(); p4 != nil {
+		return "4:" + hexs(p4)
+	}
+	return "6:" + hexs(ip)
+}
+
+// aggKeyOp: `agg key <sport> <dport> <proto> <src4> <dst4> <src6> <dst6> [p<n>]` - the flow key of a record that carries
+// exactly the elements given (`~` = the record has no such element; numbers decimal; addresses x<hex>, any length: an
+// in-process caller hands a net.IP over as it is), the elements in the order of a permutation seed. Answers
+// `ok <src> <dst> <proto> <sport> <dport> <both IPv4: 0|1>` or `err`.
+func aggKeyOp(a []string) string {
+	perm := int64(-1)
+	if n := len(a); n == 8 && strings.HasPrefix(a[7], "p") {
+		v, err := strconv.ParseUint(a[7][1:], 10, 63)
+		if err != nil {
+			return "bad-op"
+		}
+		perm = int64(v)
+		a = a[:7]
+	}
+	if len(a) != 7 {
+		return "bad-op"
+	}
+	var es []entities.InfoElementWithValue
+	names := []string{"sourceTransportPort", "destinationTransportPort", "protocolIdentifier", "sourceIPv4Address",
+		"destinationIPv4Address", "sourceIPv6Address", "destinationIPv6Address"}
+	for i, t := range a {
+		if t == aggAbsent {
+			continue
+		}
+		switch {
+		case i < 2:
+			v, err := strconv.ParseUint(t, 10, 16)
+			if err != nil {
+				return "bad-op"
+			}
+			es = append(es, entities.NewUnsigned16InfoElement(regIE(names[i]), uint16(v)))
+		case i == 2:
+			v, err := strconv.ParseUint(t, 10, 8)
+			if err != nil {
+				return "bad-op"
+			}
+			es = append(es, entities.NewUnsigned8InfoElement(regIE(names[i]), uint8(v)))
+		default:
+			if !strings.HasPrefix(t, "x") {
+				return "bad-op"
+			}
+			b, err := unhex(t[1:])
+			if err != nil {
+				return "bad-op"
+			}
+			es = append(es, entities.NewIPAddressInfoElement(regIE(names[i]), net.IP(b)))
+		}
+	}
+	// a few elements the key does not read, so that the names are looked up among others
+	es = append(es, entities.NewUnsigned8InfoElement(regIE("flowType"), 1))
+	es = append(es, entities.NewUnsigned64InfoElement(regIE("packetTotalCount"), 7))
+	if perm >= 0 {
+		rand.New(rand.NewSource(perm)).Shuffle(len(es), func(i, j int) { es[i], es[j] = es[j], es[i] })
+	}
+	set := entities.NewSet(true)
+	set.PrepareSet(entities.Data, 256)
+	if err := set.AddRecordV2(es, 256); err != nil {
+		return "builderr"
+	}
+	k, v4, err := intermediate.VerifFlowKey(set.GetRecords()[0])
+	if err != nil || k == nil {
+		return "err"
+	}
+	b := "0"
+	if v4 {
+		b = "1"
+	}
+	return fmt.Sprintf("ok %s %s %d %d %d %s", ipTextToken(k.SourceAddress), ipTextToken(k.DestinationAddress), k.Protocol, k.SourcePort, k.DestinationPort, b)
 }
